@@ -270,3 +270,32 @@ def semLine (_ : Unit) (line : String) : Unit × String :=
                       ("demanded", toJson st.demanded), ("values", Json.mkObj vals)]).compress)
 
 end MLPE.Eng
+
+namespace MLPE.Eng
+open Lean
+
+/-- `retry` mode: {"cfg": node spec, "outcomes": ["ok" | class, …]} → events and final of `Retry.run` -/
+def retryLine (_ : Unit) (line : String) : Unit × String :=
+  match Json.parse line with
+  | .error e => ((), "{\"error\":\"" ++ e ++ "\"}")
+  | .ok j =>
+    let cfg := (parseCfg ((j.getObjVal? "cfg").toOption.getD .null)).1
+    let outs : List String := (getArr j "outcomes").toList.filterMap fun x => x.getStr?.toOption
+    let outcomes : Nat → BodyOutcome := fun k =>
+      match outs[k - 1]? with
+      | some "ok" => .ret (.str "v")
+      | some cls => .raise ⟨cls, 1, 0, k⟩
+      | none => .ret (.str "v")
+    let (evs, fin) := Retry.run cfg outcomes
+    let evStr : Retry.Ev → String
+      | .call k => s!"call {k}"
+      | .sleep d => s!"sleep {d}"
+      | .dflt => "default"
+    let finStr := match fin with
+      | some (.value _) => "value"
+      | some .default => "default"
+      | some (.failed e) => "failed " ++ excStr e
+      | none => "none"
+    ((), (Json.mkObj [("events", jsonStrs (evs.map evStr)), ("final", Json.str finStr)]).compress)
+
+end MLPE.Eng
